@@ -63,6 +63,15 @@ pub fn c04(cfg: &Cfg) -> i32 {
                 }
             }
         }
+        // W4c: barely mobile movers (immobilised, or only pushes available)
+        for k in 0..cfg.n(40_000, 1_000_000) {
+            if let Some((b, g, mv)) = gen::w4c(&mut rng) {
+                let start = if rng.chance(1, 20) { Start::Text { board: b, gold: g, moveno: mv } } else { Start::Inject { board: b, gold: g, moveno: mv } };
+                let mut rec = GameRecord::new("W4c-barely-mobile", cfg.seed, (w as u64) << 32 | k, start);
+                let o1 = PlayOpts { max_turns: 1, max_actions: 5, ..PlayOpts::default() };
+                play(&mut rec, Policy::Uniform, &o1, &mut rng, &mut mon, sink);
+            }
+        }
         // incidental: ordinary games + goal-rush games (few pieces, rabbits advanced)
         let optg = PlayOpts { max_turns: 60, max_actions: 250, ..PlayOpts::default() };
         play_family(Family::W1, cfg.n(2000, 30_000), cfg.seed, w, 20, &optg, &mut mon, sink);
@@ -72,7 +81,7 @@ pub fn c04(cfg: &Cfg) -> i32 {
         sweep(2, &[0, 1, 5], 1, w, cfg.workers, 1, cfg.seed, &mut mon, sink);
         mon.finish(sink);
     });
-    let mut floors = vec![floor("turn_start_states_judged", 200_000, 2_000_000), floor("condition_classes_seen", 18, 18), floor("immobilised_mover_positions", 500, 5000), floor("mid_turn_states_with_rabbit_on_goal", 1000, 10_000), floor("mid_turn_states_with_rabbitless_side", 1000, 10_000), floor("setup_states_judged", 1000, 10_000)];
+    let mut floors = vec![floor("turn_start_states_judged", 200_000, 2_000_000), floor("condition_classes_seen", 18, 18), floor("immobilised_mover_positions", 500, 5000), floor("mid_turn_states_with_rabbit_on_goal", 1000, 10_000), floor("mid_turn_states_with_rabbitless_side", 1000, 10_000), floor("setup_states_judged", 1000, 10_000), floor("only_pushes_available_positions", 4000, 100_000), floor("single_legal_action_is_push_of_rabbit_backward", 300, 8000), floor("single_legal_action_is_push_of_rabbit_forward", 300, 8000), floor("single_legal_action_is_push_of_rabbit_sideways", 300, 8000), floor("single_legal_action_is_push_of_non_rabbit_backward", 200, 5000), floor("single_legal_action_is_push_of_non_rabbit_forward", 150, 4000)];
     for m in ["mover", "last"] {
         for c in ["gold", "silver"] {
             for f in "abcdefgh".chars() {
@@ -81,7 +90,7 @@ pub fn c04(cfg: &Cfg) -> i32 {
             }
         }
     }
-    conclude(cfg, sink, report("turn_start_states_judged", "W4 constructor: all 18 consistent combinations of (last mover: rabbit on goal / rabbits / none) x (mover: same) x (mover immobile or not) x side to move x every goal square, completed randomly and verified against the model's predicates, each followed by up to 2 turns of play (mid-turn goal / elimination states); plus W1/W2/W3/W7 games and the 2-piece sweep. At every turn start is_terminal() is compared with the reference result function (official order). distinct_nontrivial = distinct (board, side) at which at least one of the five conditions holds.", floors, &["the reference result function follows the order stated in the property"]))
+    conclude(cfg, sink, report("turn_start_states_judged", "W4 constructor: all 18 consistent combinations of (last mover: rabbit on goal / rabbits / none) x (mover: same) x (mover immobile or not) x side to move x every goal square, completed randomly and verified against the model's predicates, each followed by up to 2 turns of play (mid-turn goal / elimination states); plus W4c barely-mobile movers (one strong piece hemmed in, rabbit frozen: immobilised or with only pushes available, singled out per pushed type and direction), W1/W2/W3/W7 games and the 2-piece sweep. At every turn start is_terminal() is compared with the reference result function (official order). distinct_nontrivial = distinct (board, side) at which at least one of the five conditions holds.", floors, &["the reference result function follows the order stated in the property"]))
 }
 
 // ---------------------------------------------------------------------------------------------
@@ -375,7 +384,7 @@ pub fn c17(cfg: &Cfg) -> i32 {
 
 // ---------------------------------------------------------------------------------------------
 pub fn c19(cfg: &Cfg) -> i32 {
-    let mix = Mix { w1: (400, 12000), w2: (400, 12000), w3: (300, 8000), w5: (150, 4000), w7: (60, 1500), tree_per_mille: 3, sweep2: true, sweep3: (32, 2), text_per_mille: 50, ..Mix::default() };
+    let mix = Mix { w1: (400, 12000), w2: (400, 12000), w3: (300, 8000), w5: (150, 4000), w5b: (50, 1000), w7: (60, 1500), tree_per_mille: 3, sweep2: true, sweep3: (32, 2), text_per_mille: 50, ..Mix::default() };
     let sink = run_mix(cfg, &mix, &|| Box::new(C19::default()));
     let mut floors = vec![floor("play_states_judged", 500_000, 5_000_000), floor("setup_states_judged", 20_000, 200_000), floor("guarded_engine_calls", 10_000_000, 100_000_000), floor("rabbit_steps", 10_000, 100_000), floor("setup_states_with_one_square_left", 1000, 10_000)];
     for t in ["r", "c", "d", "h", "m"] {
